@@ -336,12 +336,46 @@ func c03Random(e *core.Env, rep *core.Report) {
 		}
 		expect[c.Name] = exp{want: judge.Convertible(m.Params[0].T, m.Result, cfg), what: what}
 	}
+	// struct pairs with method-level settings that change convertibility (map, ignore, autoMap, matchIgnoreCase,
+	// ignoreMissing, ignoreUnexported): generated pairs are convertible by construction, the negative programs are not
+	nf := tierN(e, 60, 1200)
+	fieldWant := map[string]bool{}
+	for i := 0; i < nf; i++ {
+		fc := pgen.FieldCase(rand.New(rand.NewSource(r.Int63())), fmt.Sprintf("fs%05d", i), pgen.FieldOpts{Format: formats[i%3], Seed: int64(i)})
+		for _, cv := range fc.Convs {
+			cv.Spec = nil
+		}
+		fieldWant[fc.Name] = true
+		cases = append(cases, fc)
+	}
+	for _, nc := range pgen.NegativeFieldCases() {
+		fieldWant[nc.Name] = false
+		cases = append(cases, nc)
+	}
 	p, err := runPipelineOpts(e, "c03r", cases, pipeOpts{Execute: false})
 	if err != nil {
 		rep.Inconclusive = append(rep.Inconclusive, err.Error())
 		return
 	}
 	for _, cr := range p.Mod.Cases {
+		if want, ok := fieldWant[cr.Case.Name]; ok {
+			rep.Evaluations++
+			rep.Count("struct_pairs_with_field_settings", 1)
+			got := cr.Gen.Exit == 0
+			if cr.Gen.Exit != 0 && cr.Gen.Exit != 1 {
+				rep.Violation(&core.Viol{Kind: "panic", Case: cr.Case.Name, Summary: "goverter crashed: " + panicSite(cr.Gen.Stderr), Detail: cr.Gen.Stderr, Dir: cr.Dir})
+			} else if got != want {
+				kind := "accepts_unconvertible"
+				what := cr.Case.Features["negative"]
+				if want {
+					kind, what = "rejects_convertible", cr.Case.Features["fieldkinds"]
+				}
+				rep.Violation(&core.Viol{Kind: kind, Case: cr.Case.Name, Summary: fmt.Sprintf("struct pair with field settings (%s): expected ok=%v, goverter exit %d (%s)", what, want, cr.Gen.Exit, core.Classify(cr.Gen.Stderr)), Detail: cr.Case.Note + "\n" + cr.Gen.Stderr, Dir: cr.Dir})
+			} else {
+				rep.NonTrivial("fieldsettings|" + cr.Case.Fingerprint() + cr.Case.Features["negative"])
+			}
+			continue
+		}
 		ex := expect[cr.Case.Name]
 		rep.Evaluations++
 		rep.Count("random_deep_pairs", 1)
